@@ -1192,6 +1192,14 @@ static void uv__poll_io_uring(uv_loop_t* loop, struct uv__iou* iou) {
 
     /* If the op is not supported by the kernel retry using the thread pool */
     if (e->res == -EOPNOTSUPP) {
+      /* uv__iou_fs_statx() parked its struct statx in req->ptr; the thread pool
+       * path does not use it and overwrites req->ptr on success. */
+      if (req->fs_type == UV_FS_STAT ||
+          req->fs_type == UV_FS_LSTAT ||
+          req->fs_type == UV_FS_FSTAT) {
+        uv__free(req->ptr);
+        req->ptr = NULL;
+      }
       uv__fs_post(loop, req);
       continue;
     }
